@@ -268,6 +268,17 @@ pub fn candidates_staged(s: &Scenario, coarse_only: bool) -> Vec<Scenario> {
         n.exec.fresh_waker = false;
         out.push(n);
     }
+    if !s.exec.priorities.is_empty() {
+        let mut n = s.clone();
+        n.exec.priorities.clear();
+        n.exec.prio_changes.clear();
+        out.push(n);
+        if !s.exec.prio_changes.is_empty() {
+            let mut n = s.clone();
+            n.exec.prio_changes.pop();
+            out.push(n);
+        }
+    }
     if s.exec.workers > 1 {
         let mut n = s.clone();
         n.exec.worker_picks.truncate(s.exec.worker_picks.len() / 2);
